@@ -677,3 +677,173 @@ Proof.
       * destruct g; [|discriminate Eg]. destruct (starts_plain a); reflexivity.
     + reflexivity.
 Qed.
+
+(* ---------------- strip ---------------- *)
+Fixpoint lnb (s : string) : bool :=      (* the last character, if any, is not a blank *)
+  match s with
+  | EmptyString => true
+  | String c r => match r with EmptyString => negb (is_blank c) | _ => lnb r end
+  end.
+
+Lemma lnb_not_all_blank s : s <> "" -> lnb s = true -> all_blank s = false.
+Proof.
+  induction s as [|c r IH]; intros Hne H; [congruence|]. cbn [all_blank]. destruct r as [|d r'].
+  - cbn in H. apply negb_true_iff in H. now rewrite H.
+  - rewrite (IH ltac:(discriminate) H). apply andb_false_r.
+Qed.
+
+Lemma rstrip_lnb s : lnb s = true -> rstrip s = s.
+Proof.
+  induction s as [|c r IH]; intros H; [reflexivity|].
+  cbn [rstrip]. rewrite (lnb_not_all_blank (String c r) ltac:(discriminate) H).
+  f_equal. destruct r as [|d r']; [reflexivity|]. now apply IH.
+Qed.
+
+Lemma lnb_app_r s t : t <> "" -> lnb t = true -> lnb (s ++ t) = true.
+Proof.
+  intros Hne Ht. induction s as [|c s IH]; [exact Ht|]. cbn [append lnb].
+  destruct (s ++ t) eqn:E; [destruct s; [cbn in E; congruence|discriminate]|exact IH].
+Qed.
+
+Lemma lnb_forall t : str_forall (fun c => negb (is_blank c)) t = true -> lnb t = true.
+Proof.
+  induction t as [|c r IH]; intros H; [reflexivity|]. cbn in H. apply andb_prop in H. destruct H as [Hc Hr].
+  cbn [lnb]. destruct r; [exact Hc|now apply IH].
+Qed.
+
+Lemma atext_nb a : atom_ok a -> str_forall (fun c => negb (is_blank c)) (atext a) = true.
+Proof.
+  intros Ha. apply atext_forall; [exact Ha| |destruct a; reflexivity].
+  intros c Hc. destruct (lit_char_facts c Hc) as (Hb & _). now rewrite Hb.
+Qed.
+
+Lemma irender_lnb its : all_ok its -> lnb (irender its) = true /\ (its <> [] -> irender its <> "").
+Proof.
+  induction its as [|[g a] R IH]; intros Hok; [split; [reflexivity|congruence]|].
+  inversion Hok as [|x l Ha HR]; subst. cbn [snd] in Ha. destruct (IH HR) as [IH1 IH2].
+  destruct (atext_nonempty a Ha) as (c & r & E & _).
+  assert (Hne : atext a ++ irender R <> "") by (rewrite E; discriminate).
+  split; [|intros _; cbn [irender]; destruct (blanks g); [exact Hne|discriminate]].
+  cbn [irender]. apply lnb_app_r; [exact Hne|].
+  destruct R as [|p R'].
+  - cbn [irender]. rewrite str_app_nil_r. apply lnb_forall. now apply atext_nb.
+  - apply lnb_app_r; [apply IH2; discriminate|exact IH1].
+Qed.
+
+Lemma strip_items its : all_ok its -> strip (irender its) = irender (zh true its).
+Proof.
+  intros Hok. destruct its as [|[g a] R]; [reflexivity|].
+  inversion Hok as [|x l Ha HR]; subst. cbn [snd] in Ha.
+  unfold strip. cbn [irender zh blanks append]. rewrite skip_blanks_blanks.
+  destruct (atext_nonempty a Ha) as (c & r & E & Hb). rewrite E. cbn [append]. rewrite (skip_nb c _ Hb).
+  apply rstrip_lnb. change (String c (r ++ irender R)) with (String c r ++ irender R). rewrite <- E.
+  assert (Hok' : all_ok ((0, a) :: R)) by (constructor; assumption).
+  exact (proj1 (irender_lnb ((0, a) :: R) Hok')).
+Qed.
+
+(* ---------------- pass 9: re_spaces ---------------- *)
+Fixpoint srender (its : items) : string :=
+  match its with
+  | [] => ""
+  | (g, a) :: r => (if Nat.ltb 0 g then "*" else "") ++ atext a ++ srender r
+  end.
+
+Lemma Uspaces_inert c r : negb (is_blank c) = true -> Uspaces (String c r) = String c (Uspaces r).
+Proof. intros H. apply negb_true_iff in H. now rewrite Uspaces_cons, H. Qed.
+
+Lemma pass9 its : all_ok its -> Uspaces (irender its) = srender its.
+Proof.
+  induction its as [|[g a] R IH]; intros Hok; [reflexivity|].
+  inversion Hok as [|x l Ha HR]; subst. cbn [snd] in Ha. cbn [irender srender].
+  assert (Hbody : Uspaces (atext a ++ irender R) = atext a ++ srender R).
+  { rewrite (inert_copy Uspaces _ Uspaces_inert _ _ (atext_nb a Ha)). now rewrite (IH HR). }
+  destruct g as [|g]; [exact Hbody|]. cbn [blanks append Nat.ltb Nat.leb]. rewrite Uspaces_cons.
+  cbn [is_blank Ascii.eqb Bool.eqb andb]. rewrite skip_blanks_blanks.
+  destruct (atext_nonempty a Ha) as (c & r & E & Hb). rewrite E in *. cbn [append] in *.
+  rewrite (skip_nb c _ Hb). now rewrite Hbody.
+Qed.
+
+(* ================================================================== *)
+(* from written forms to items: strip, re_compl_cell, re_compl_surf   *)
+(* ================================================================== *)
+Definition watom (w : wtok) : atom :=
+  match w with
+  | WLit neg plus ds sub => ALit (sign_text neg plus ++ ds ++ sub_text sub)
+  | WHashN _ ds => ACell ds
+  | WHashP _ => ANot
+  | WLP => ALP | WRP => ARP | WColon => AColon
+  end.
+
+Definition is_hash (w : wtok) : bool := match w with WHashN _ _ | WHashP _ => true | _ => false end.
+
+Definition conv (p : nat * wtok) : nat * atom :=
+  ((if is_hash (snd p) then S (fst p) else fst p), watom (snd p)).
+
+(* texts after re_compl_cell, after re_compl_surf *)
+Definition wtext1 (w : wtok) : string :=
+  match w with WHashN _ ds => " ^(" ++ ds ++ ")" | _ => wtext w end.
+Definition wtext2 (w : wtok) : string :=
+  match w with WHashN _ ds => " ^(" ++ ds ++ ")" | WHashP _ => " _(" | _ => wtext w end.
+
+Fixpoint render_with (tx : wtok -> string) (ws : written) : string :=
+  match ws with [] => "" | (g, w) :: r => blanks g ++ tx w ++ render_with tx r end.
+
+Lemma render_with_wtext ws : render ws 0 = render_with wtext ws.
+Proof. induction ws as [|[g w] r IH]; cbn; [reflexivity|now rewrite IH]. Qed.
+
+Lemma span_ds_app ds R : str_forall is_digit ds = true -> digit_head R = false -> span_ds (ds ++ R) = (ds, R).
+Proof.
+  induction ds as [|c ds IH]; intros Hd HR.
+  - cbn [append]. destruct R as [|d R']; [reflexivity|]. cbn in HR. cbn [span_ds]. now rewrite HR.
+  - cbn [str_forall] in Hd. apply andb_prop in Hd. destruct Hd as [Hc Hd]. cbn [append span_ds]. rewrite Hc.
+    now rewrite (IH Hd HR).
+Qed.
+
+Lemma Ucell_inert c r : negb (is_c "#" c) = true -> Ucell (String c r) = String c (Ucell r).
+Proof. intros H. apply negb_true_iff in H. now rewrite Ucell_cons, H. Qed.
+
+Lemma Usurf_inert c r : negb (is_c "#" c) = true -> Usurf (String c r) = String c (Usurf r).
+Proof. intros H. apply negb_true_iff in H. rewrite Usurf_cons, H. reflexivity. Qed.
+
+Lemma wlit_text_lit neg plus ds sub : wf_tok (WLit neg plus ds sub) = true ->
+  str_forall lit_char (sign_text neg plus ++ ds ++ sub_text sub) = true /\ sign_text neg plus ++ ds ++ sub_text sub <> "".
+Proof.
+  cbn [wf_tok]. intros H. apply andb_prop in H. destruct H as [Hds Hsub].
+  destruct (digits_ok_forall ds Hds) as [Fd Nd]. split.
+  - rewrite !str_forall_app. rewrite (str_forall_impl is_digit lit_char ds digit_lit Fd).
+    assert (Hs : str_forall lit_char (sign_text neg plus) = true) by (destruct neg, plus; reflexivity).
+    rewrite Hs. destruct sub as [d|]; [|reflexivity]. cbn. now rewrite (digit_lit d Hsub).
+  - destruct neg; [discriminate|]. destruct plus; [discriminate|]. cbn [sign_text append].
+    destruct ds; [congruence|discriminate].
+Qed.
+
+Lemma not_hash_lit c : lit_char c = true -> negb (is_c "#" c) = true.
+Proof. intros H. destruct (lit_char_facts c H) as (_ & H1 & _). now rewrite H1. Qed.
+
+Lemma pass1 : forall ws, wf_written ws = true -> Ucell (render_with wtext ws) = render_with wtext1 ws.
+Proof.
+  induction ws as [|[g w] r IH]; intros Hwf; [reflexivity|].
+  cbn [wf_written] in Hwf. apply andb_prop in Hwf. destruct Hwf as [Hwf Hr].
+  apply andb_prop in Hwf. destruct Hwf as [Hw Hsep]. cbn [render_with].
+  rewrite (inert_copy Ucell _ Ucell_inert (blanks g) _ (blanks_forall _ g eq_refl)). f_equal.
+  specialize (IH Hr).
+  destruct w as [neg plus ds sub|g2 ds|g2| | |]; cbn [wtext wtext1].
+  - destruct (wlit_text_lit neg plus ds sub Hw) as [Hf _].
+    rewrite (inert_copy Ucell _ Ucell_inert _ _ (str_forall_impl lit_char _ _ not_hash_lit Hf)). now rewrite IH.
+  - cbn [wf_tok] in Hw. destruct (digits_ok_forall ds Hw) as [Fd Nd]. apply negb_true_iff in Hsep.
+    pose proof (digit_head_render r 0 Hsep) as HR. rewrite render_with_wtext in HR.
+    cbn [append]. rewrite Ucell_cons. cbn [is_c Ascii.eqb Bool.eqb andb]. rewrite str_app_assoc, skip_blanks_blanks.
+    assert (Hsk : skip_blanks (ds ++ render_with wtext r) = ds ++ render_with wtext r).
+    { destruct ds as [|d ds']; [congruence|]. cbn [append]. apply skip_nb.
+      cbn in Fd. apply andb_prop in Fd. destruct Fd as [Hd _]. now destruct (lit_char_facts d (digit_lit d Hd)). }
+    rewrite Hsk, (span_ds_app ds _ Fd HR). destruct ds as [|d ds']; [congruence|].
+    rewrite IH. rewrite !str_app_assoc. reflexivity.
+  - cbn [append]. rewrite Ucell_cons. cbn [is_c Ascii.eqb Bool.eqb andb]. rewrite str_app_assoc, skip_blanks_blanks.
+    cbn [append skip_blanks is_blank Ascii.eqb Bool.eqb andb span_ds is_digit N_of_ascii N.leb N.compare Pos.compare Pos.compare_cont andb].
+    change (is_digit "(") with false. cbn iota. f_equal.
+    rewrite (inert_copy Ucell _ Ucell_inert (blanks g2) _ (blanks_forall _ g2 eq_refl)).
+    rewrite Ucell_inert by reflexivity. rewrite IH. now rewrite str_app_assoc.
+  - cbn [append]. rewrite Ucell_inert by reflexivity. now rewrite IH.
+  - cbn [append]. rewrite Ucell_inert by reflexivity. now rewrite IH.
+  - cbn [append]. rewrite Ucell_inert by reflexivity. now rewrite IH.
+Qed.
